@@ -126,6 +126,52 @@ def dominated_by_start(fn, var, pos):
                                                           (b in nulledge and k == nulledge[b]))), nullcancel
 
 
+def transient_park(fn, site, var):
+    """A park that cannot outlive the critical section: every path from the
+    park to an unlock / exit passes a test nni_aio_list_active(var), and on
+    its still-parked edge the aio is removed again before any nni_aio_start,
+    unlock or exit.  (The queue-serving helper either completed it -- not
+    active any more -- or it is taken off and parked again only after a
+    successful start, which the rule then checks as an ordinary park.)"""
+    tests = {}
+    for s in fn.calls("nni_aio_list_active"):
+        a = fn.expand(s.node["args"][0]) if s.node["args"] else None
+        if a is not None and a.get("k") == "var" and a["n"] == var:
+            for b, (nz, z) in fn.value_edges(s).items():
+                tests[b] = nz
+
+    def leaves(e):
+        return any(n.get("k") == "call" and n.get("fn") in ("nni_mtx_unlock", START) for n in walk(e))
+
+    def removes(e):
+        return any(n.get("k") == "call" and n.get("fn") in UNPARK_CALLS and
+                   any(a is not None and mentions_var(fn.expand(a), var) for a in n["args"]) for n in walk(e))
+    if not tests:
+        return False
+    # 1. park -> unlock/exit always through one of the tests
+    tpos = {(b, len(fn.blocks[b].elems) - 1) for b in tests}
+    seen = fn.reach((site.b, site.i + 1), blocked=lambda b, i, e: (b, i) in tpos)
+    for (b, i) in seen:
+        blk = fn.blocks[b]
+        if (b, i) == (fn.exit, 0):
+            return False
+        if i < len(blk.elems) and blk.elems[i] is not None and leaves(blk.elems[i]):
+            return False
+    # 2. on the still-active edge: removal before start/unlock/exit
+    for b, nz in tests.items():
+        tgt = fn.blocks[b].succs[nz]
+        if tgt is None:
+            continue
+        seen = fn.reach((tgt, 0), blocked=lambda bb, ii, e: removes(e))
+        for (bb, ii) in seen:
+            blk = fn.blocks[bb]
+            if (bb, ii) == (fn.exit, 0):
+                return False
+            if ii < len(blk.elems) and blk.elems[ii] is not None and leaves(blk.elems[ii]):
+                return False
+    return True
+
+
 def rule_a2(ctx):
     r = ctx.rule("C02.A2", "T6", "every park of a caller-supplied aio (list append / field store) is dominated by the "
                  "success edge of nni_aio_start on that aio, in the function or in all of its callers", floor=50)
@@ -177,6 +223,8 @@ def rule_a2(ctx):
                 if src is None or src.get("k") != "var" or src.get("vk") != "param":
                     continue
             ok, why = check(fn, a["n"], (s.b, s.i), 0)
+            if not ok and place.startswith(LIST_PARK) and transient_park(fn, s, a["n"]):
+                ok, why = True, "transient park: completed or removed again before the lock is released or the aio is started"
             if not ok and (fn.name, place) in EXC:
                 gfn, gfield, reason = EXC[(fn.name, place)]
                 # park must be unreachable once the start-success edges AND the
